@@ -122,6 +122,12 @@ func (ls ListSpec) Build() *astisub.Subtitles {
 		}
 		s.Items = append(s.Items, it)
 	}
+	// a third cue with what a tidying writer would want to drop or renumber: an empty line between two others, a
+	// line without runs, a line of blanks, a number out of sequence, an end before the previous cue's start
+	lines := make([]astisub.Line, 0, 8)
+	lines = append(lines, astisub.Line{Items: []astisub.LineItem{{Text: "top"}}}, astisub.Line{Items: []astisub.LineItem{{Text: ""}}},
+		astisub.Line{Items: []astisub.LineItem{{Text: "bottom"}}}, astisub.Line{}, astisub.Line{Items: []astisub.LineItem{{Text: "  "}}}, astisub.Line{Items: []astisub.LineItem{{Text: "last"}}})
+	s.Items = append(s.Items, &astisub.Item{Index: 7, StartAt: 500 * time.Millisecond, EndAt: 900 * time.Millisecond, Lines: lines})
 	return s
 }
 
@@ -245,7 +251,12 @@ func instrRun(c *core.Ctx) {
 	// byte-comparing checks that presuppose a fixed map order run here, where every map walk is in
 	// sorted order (hooks inert), so that they are independent of the map-order question above
 	for _, sp := range plainSpecs() {
-		for _, o := range permsOf(corpus.WriteFormats) {
+		orders := permsOf(corpus.WriteFormats)
+		// the same writer called with and without a per-call option, in every order of the three
+		for _, o := range permsOf([]string{"ttml", "ttml-tab", "ttml-noindent"}) {
+			orders = append(orders, o, append(append([]string{}, o...), o[0], "vtt", o[1]))
+		}
+		for _, o := range orders {
 			if !c.Mine() {
 				continue
 			}
@@ -394,7 +405,7 @@ func checkPlain(pc PlainCase) (key, msg string, out uint64) {
 		return "", "", core.Hash64(before)
 	case "writer-order":
 		alone := map[string]string{}
-		for _, w := range corpus.WriteFormats {
+		for _, w := range append(append([]string{}, corpus.WriteFormats...), "ttml-tab", "ttml-noindent") {
 			var b bytes.Buffer
 			corpus.Write(w, pc.Spec.Build(), &b)
 			alone[w] = b.String()
@@ -586,7 +597,7 @@ func init() {
 		ID: "C19", Level: "model_checking",
 		Rule: "map iteration order is an environment choice owned by the explorer (instrumented build: every `range` over a map in package astisub walks its sorted keys permuted by a hook): states = (cue list, writer, map-range site) choice points, transitions = permutations chosen, every execution's bytes compared with the sorted-order bytes; all permutations for maps of <=4 entries, identity+rotations+adjacent transpositions for 5-6 entries; cue lists = all multisets of <=4 styles over 6 heterogeneous attribute profiles x multisets of <=3 regions over 3 profiles; plain build: 50 repetitions in-process, 4 fresh processes, deep purity snapshot (values, aliasing, len/cap, spare capacity) before/after every write, all 120 writer orders, two injectable clocks",
 		Scope: map[core.Tier]string{
-			core.Quick:    "210 style multisets x 6 region multisets (<=2 regions) + two 5-6-entry lists, 5 writers, all map orders; plain: purity on all of those, repetition/other-process/writer-order/clock on 5 lists",
+			core.Quick:    "210 style multisets x 6 region multisets (<=2 regions) + two 5-6-entry lists, 5 writers, all map orders; plain: purity on all of those (every list also holds a cue with an empty line, a line without runs, a number out of sequence and times out of order), repetition/other-process/writer-order (all 120 orders of the five writers + the TTML writer with and without a per-call option in every order)/clock on 5 lists",
 			core.Thorough: "462 style multisets (<=5 styles; 5-entry maps: rotations and adjacent transpositions) x 10 region multisets (<=3 regions)",
 		},
 		Assumptions: []string{"Go toolchain and standard library", "instrumented build = plain build with inert hooks (validated by running /repo's own tests against the overlay in setup and by the plain-build repetition checks)", "map walks inside dependencies are not controlled (encoding/xml marshals struct fields in declaration order; astikit.BiMap is only indexed)"},
